@@ -234,9 +234,25 @@ func TestC04(t *testing.T) {
 		nctx := rapid.IntRange(1, 2).Draw(t, "nctx")
 		ctxs := []mangos.Context{sock}
 		if nctx == 2 {
-			c, err := sock.OpenContext() // inherits retry time
+			// the second context either inherits the socket's retry
+			// time or is opened on a socket with another one and
+			// given its own
+			own := rapid.Bool().Draw(t, "ctxOwnRetryTime")
+			if own {
+				_ = sock.SetOption(mangos.OptionRetryTime, time.Minute)
+			}
+			c, err := sock.OpenContext()
 			if err != nil {
 				t.Fatalf("harness: %v", err)
+			}
+			if own {
+				stats.Class("ctx_own_retry_time")
+				if err := c.SetOption(mangos.OptionRetryTime, R); err != nil {
+					t.Fatalf("harness: %v", err)
+				}
+				if err := sock.SetOption(mangos.OptionRetryTime, R); err != nil {
+					t.Fatalf("harness: %v", err)
+				}
 			}
 			ctxs = append(ctxs, c)
 		}
